@@ -409,7 +409,8 @@ class Cid(object):
         self._location.set_cell(4)
         field_length = field_format.length
         if self._data_format.format == data.FORMAT_FIXED:
-            if field_length.items is None:
+            if not field_length.items:
+                # NOTE: A length consisting only of commas results in an empty list of items.
                 raise errors.InterfaceError(
                     "length of field %s must be specified with fixed data format" % _compat.text_repr(field_name),
                     self._location,
